@@ -254,7 +254,7 @@ const c07Params = "i64 %i, <2 x i64> %vi2i64, <4 x i64> %vi4i64, <2 x i32> %vi2i
 
 func genC07(ctx *fw.Ctx) []fw.Case {
 	var cases []fw.Case
-	n := ctx.Pick(300, 6000)
+	n := ctx.Pick(300, 60000)
 	for i := 0; i < n; i++ {
 		i := i
 		cases = append(cases, fw.Case{ID: fmt.Sprintf("grid/%d", i), Run: func(r *fw.Rec) { c07Batch(r, i) }})
